@@ -764,6 +764,9 @@ CFG_FUNCTIONS = [  # (Lean name, file, regex of the function head, strip the dea
     ("monitor_wait", "src/Monitor.cpp", r"\bbool\s+Monitor\s*::\s*wait\s*\(\s*\)", False),
     ("monitor_waitT", "src/Monitor.cpp", r"\bbool\s+Monitor\s*::\s*wait\s*\(\s*int64\s+\w+\s*\)", True),
     ("monitor_set", "src/Monitor.cpp", r"\bvoid\s+Monitor\s*::\s*set\s*\(\s*\)", False),
+    ("semaphore_signal", "src/Semaphore.cpp", r"\bvoid\s+Semaphore\s*::\s*signal\s*\(\s*\)", False),
+    ("semaphore_wait", "src/Semaphore.cpp", r"\bbool\s+Semaphore\s*::\s*wait\s*\(\s*\)", False),
+    ("semaphore_tryWait", "src/Semaphore.cpp", r"\bbool\s+Semaphore\s*::\s*tryWait\s*\(\s*\)", False),
 ]
 
 
@@ -781,7 +784,7 @@ def translate_cfg(repo=None):
     try:
         for name, rel, head, timed in CFG_FUNCTIONS:
             src = _strip_comments((repo / rel).read_text())
-            what = {"mutex": "Mutex", "signal": "Signal", "monitor": "Monitor"}[name.split("_")[0]] + "::" + name.split("_")[1].replace("waitT", "wait(int64)")
+            what = {"mutex": "Mutex", "signal": "Signal", "monitor": "Monitor", "semaphore": "Semaphore"}[name.split("_")[0]] + "::" + name.split("_")[1].replace("waitT", "wait(int64)")
             _, body = _method_body(src, head, what)
             if timed:
                 body = G.strip_deadline(body, what)
